@@ -129,7 +129,14 @@ class NodeRun:
     def mine_request(self, nonce):
         mw = self.mw
         self.node.use_store()
-        mw.handle_request_scrypt_input_message(0, nonce)
+        try:
+            mw.handle_request_scrypt_input_message(0, nonce)
+        except Exception as e:
+            # the miner could not assemble a candidate from (head, pending transactions): recorded, judged by TraceNode
+            self.last_error = repr(e)
+            self.events.append({"op": "mine_failed", "now": self.clock(), "error": repr(e)[:200], "post": self.post()})
+            self.labels.append({"request_raised": repr(e)[:120]})
+            return None
         summary, height, txs = mw.mining_args[0]
         self._req = dict(now=self.clock(), pool=[self.w.talias(indep.txid(t)) for t in txs[1:]],
                          key=self.w.keys.by_pub.get(mw.public_key, 0))
